@@ -27,12 +27,13 @@ TEMPLATES = {
     "EB": "End block", "EBS": "End blocks", "P": "Pause: 0.3s", "Pu": "Pause", "Ho": "Hold: 0.3s", "Hu": "Hold",
     "St": "Stop", "Rs": "Restart", "CA": "Call macro: A", "CB": "Call macro: B",
     "K": "Block: k{i}", "Wa": "Watch: X > 1", "Al": "Alarm: X > 1", "MA": "Macro: A", "MB": "Macro: B",
-    "Bs": "Base: s", "Bm": "Base: min", "BL": "Base: L", "Si": "Simulate: X = 5", "So": "Simulate off: X",
+    "Bs": "Base: s", "Bm": "Base: min", "BL": "Base: L", "Si": "Simulate: X = 5", "So": "Simulate off: X", "Si0": "Simulate: Temp = 20 degC",      # Si0: simulated value == real value (Temp is constant 20 degC)
     "Boom": "Boom: 2", "Bogus": "Bogus",
     "Wl": "Wait: 2s", "Pl": "Pause: 2s", "Hl": "Hold: 2s", "L6": "Long: 6",      # long enough to cancel / force (C12)
     "SiT": "Simulate: Temp = 5 degC", "SoT": "Simulate off: Temp",      # simulation with a unit (C16/C36)
     # C10/C11: condition on the hardware-fed tag In1, short variants
     "WaI": "Watch: In1 > 1", "SiI": "Simulate: In1 = 0", "L2": "Long: 2", "W1": "Wait: 0.1s",
+    "SiL": "Simulate: Level = 5",      # simulated value == real value; Level feeds the derived tag Twice (C10)
 }
 OPENERS.add("WaI")
 
